@@ -6,7 +6,7 @@
    validate_or_filter = encoding::validate_or_filter, gen_sb k = the loop body of a single-byte validator as
    GENERATED from private/encoding_validators.h.  Bytes and code points are N, strings are list N. *)
 From CppcmsV Require Import Base.Tac Base.CSem Base.Sweep C14.Defs C14.Spec C14.Proofs C14.Proofs2 C14.Proofs3
-  C14.Proofs4 C14.Proofs5 C14.Proofs6 C14.Proofs7 C14.Link gen.Gen_C14.
+  C14.Proofs4 C14.Proofs5 C14.Proofs6 C14.Proofs7 C14.Proofs8 C14.Link gen.Gen_C14.
 Local Open Scope N_scope.
 
 (* ---------------------------------------------------------------------------------------------------------
@@ -173,6 +173,17 @@ Example utf_to_utf_nonvacuous :
   utf_to_utf false [72;237;160;128;195;169;226;130] = Some (Some [72;195;169]) /\
   utf_to_utf true [72;237;160;128;195;169] = Some None /\ utf_to_utf true [72;195;169] = Some (Some [72;195;169]).
 Proof. repeat split; vm_compute; reflexivity. Qed.
+
+(* utf_traits<char,1>::decode_valid, the unchecked decoder for validated text: on every UTF8-char it returns the value
+   and consumes exactly the sequence, hence agrees with the checking decoders wherever they accept *)
+Theorem decode_valid_on_wellformed : forall e c r, Seq e c -> decode_valid (e ++ r) = (c, r).
+Proof. exact decode_valid_spec. Qed.
+Print Assumptions decode_valid_on_wellformed.
+
+Theorem decode_valid_agrees_with_decode : forall eof html l c r,
+  not_cp eof -> next_gen eof html l = (Cp c, r) -> decode_valid l = (c, r).
+Proof. exact decode_valid_agrees. Qed.
+Print Assumptions decode_valid_agrees_with_decode.
 
 Example decoders_nonvacuous :
   booster_decode [240;159;152;128;1] = (Cp 128512, [1]) /\ cppcms_next false [240;159;152;128;1] = (Cp 128512, [1]) /\
@@ -380,6 +391,24 @@ Theorem lookup_fails_iff_unknown : forall name,
   lookup name = None <-> forall n v, In (n, v) enc_table -> norm_name name <> norm_name n.
 Proof. exact lookup_none_iff. Qed.
 Print Assumptions lookup_fails_iff_unknown.
+
+(* every spelling of a name (letter case, punctuation, bytes above 127, anything after a NUL) behaves identically in
+   encoding::valid, validate_or_filter and the form text widget *)
+Theorem dispatch_depends_on_normalised_name : forall a b, norm_name a = norm_name b ->
+  (forall l cnt, valid_named a l cnt = valid_named b l cnt) /\
+  (forall repl l, validate_or_filter a repl l = validate_or_filter b repl l) /\
+  (forall cs value low high, text_widget cs a value low high = text_widget cs b value low high).
+Proof. exact dispatch_norm. Qed.
+Print Assumptions dispatch_depends_on_normalised_name.
+
+Theorem name_case_insensitive : forall c l, 65 <= c <= 90 -> norm_name (c :: l) = norm_name (c + 32 :: l).
+Proof. exact norm_name_upper. Qed.
+Print Assumptions name_case_insensitive.
+
+Theorem name_punctuation_ignored : forall c l, c <> 0 -> ~ (48 <= c <= 57) -> ~ (65 <= c <= 90) -> ~ (97 <= c <= 122) ->
+  norm_name (c :: l) = norm_name l.
+Proof. exact norm_name_skip. Qed.
+Print Assumptions name_punctuation_ignored.
 
 Theorem utf8_validator_only_for_utf8_names : forall name, lookup name = Some V_utf8 -> is_utf8 name = true.
 Proof. exact lookup_utf8_is_utf8. Qed.
